@@ -66,11 +66,11 @@ def run_real(job):
     res = {"evaluations": 0, "transitions": 0, "context_switches": 0, "traces_validated": 0, "shapes": {},
            "distinct": [], "corr_fail": [], "mon_fail": [], "known": [], "samples": [], "extra": {}}
     rp = {"model": "m8-real", "job": {"seed": job["seed"], "children": job["children"], "findings": bool(job.get("findings"))}}
-    args = ["timeout", "-s", "KILL", "400", "/venv/bin/python", "-m", "harness.m8_real", str(job["seed"]), str(job["children"])]
+    args = ["/venv/bin/python", "-m", "harness.m8_real", str(job["seed"]), str(job["children"])]
     if job.get("findings"):
         args.append("findings")
     try:
-        p = subprocess.run(args, cwd=plug.ds.REPO, env=env, stdout=subprocess.PIPE, stderr=subprocess.DEVNULL)
+        p = plug.run_group(args, plug.ds.REPO, env, 400)
     except Exception as e:   # noqa
         return {"infra_error": "real children could not be started: %r" % (e,)}
     line = [l for l in p.stdout.decode("utf8", "replace").splitlines() if l.startswith("M8REAL ")]
